@@ -630,12 +630,24 @@ def keys_stream(rep, tier, rng, impl):
     # ---------------- round 1: load, properties, exports, signatures
     ops, idx = list(loadops), {}
     passwords = [None, "pa$$w0rd é"]
+    # password shapes: whitespace at the ends / only whitespace / inner whitespace (control) / non-ASCII / empty string
+    pw_shape = {None: "plain", "pa$$w0rd é": "password", "secret ": "trailing-space", "secret\n": "trailing-newline",
+                " secret": "leading-space", "\tsecret\t": "tabs-both-ends", " ": "whitespace-only", "\n": "newline-only",
+                "se cret": "inner-space", "pä$$wörd\u00a0ž": "non-ascii", "": "empty-string"}
+    first_rsa = next((k[0] for k in keyspecs if k[1] == "rsa"), None)
+    first_ecc = next((k[0] for k in keyspecs if k[1] == "ecc"), None)
+
+    def pwlist(kid):
+        if thorough or kid in (first_rsa, first_ecc):
+            return list(pw_shape)
+        return passwords
+
     msgs = {}
     for kid, kind, nums, lop, note in keyspecs:
         idx[(kid, "props")] = len(ops)
         ops.append({"op": "props", "id": kid})
         for enc in ("PEM", "DER"):
-            for pw in passwords:
+            for pw in pwlist(kid):
                 idx[(kid, "xprv", enc, pw)] = len(ops)
                 ops.append({"op": "export_prv", "id": kid, "enc": enc, "pw": pw})
         idx[(kid, "xprv", "NXP", None)] = len(ops)
@@ -697,9 +709,9 @@ def keys_stream(rep, tier, rng, impl):
                  {"kind": "props", "key": keydesc(kid), "observed": pr})
         # ---- private key exports: independent decoding + every parse entry point
         for enc in ("PEM", "DER"):
-            for pw in passwords:
+            for pw in pwlist(kid):
                 xr = r1[idx[(kid, "xprv", enc, pw)]]
-                tag = f"{kind}:{enc}:{'password' if pw else 'plain'}"
+                tag = f"{kind}:{enc}:{pw_shape[pw]}"
                 if xr[0] != "ok":
                     fail(f"export_prv:{tag}:failed", f"PrivateKey.export({enc}, password={pw!r}) failed: {xr}",
                          {"kind": "export_prv", "key": keydesc(kid), "enc": enc, "pw": pw})
@@ -730,6 +742,14 @@ def keys_stream(rep, tier, rng, impl):
                     ops2.append({"op": "parse_prv", "cls": "PrivateKey", "data": blob.hex(), "pw": "not the password", "cmp": kid})
                     chk2.append(("parse_prv", kid, tag, "PrivateKey", "reject-nopw", nums, blob, None))
                     ops2.append({"op": "parse_prv", "cls": "PrivateKey", "data": blob.hex(), "pw": None, "cmp": kid})
+                    # every *different* password must fail, in particular the stripped / padded variants of the right one
+                    for other_pw in sorted({pw.strip(), pw + " ", " " + pw, pw.rstrip("\n"), pw.replace(" ", "")} - {pw, ""}):
+                        for cls in ("PrivateKey", typed):
+                            chk2.append(("parse_prv", kid, tag, cls, "reject-wrongpw", nums, blob, other_pw))
+                            ops2.append({"op": "parse_prv", "cls": cls, "data": blob.hex(), "pw": other_pw, "cmp": kid})
+                    if not pw.strip():
+                        chk2.append(("parse_prv", kid, tag, typed, "reject-nopw", nums, blob, None))
+                        ops2.append({"op": "parse_prv", "cls": typed, "data": blob.hex(), "pw": None, "cmp": kid})
                 stats["roundtrips"] += 4
         # ---- public key exports
         for enc in ("PEM", "DER", "NXP"):
